@@ -320,7 +320,10 @@ def known_findings(prop):
 
 
 class Check:
-    def __init__(self, prop, tier, seed):
+    def __init__(self, prop, tier, seed, evidence_name=None):
+        """evidence_name: write evidence/<evidence_name>.json instead of evidence/<prop>.json (for a property
+        decided by several sub-checks whose evidence files are merged by merge_evidence)."""
+        self.evidence_name = evidence_name or prop
         self.prop = prop
         self.tier = tier
         self.seed = seed
@@ -430,7 +433,7 @@ class Check:
         ev = dict(property_id=self.prop, tier=self.tier, seed=self.seed, level=level, coverage=cov,
                   assumptions=self.assumptions, wall_s=round(wall, 2), violations=len(found) + len(broken))
         os.makedirs(os.path.join(ROOT, "evidence"), exist_ok=True)
-        with open(os.path.join(ROOT, "evidence", self.prop + ".json"), "w") as f:
+        with open(os.path.join(ROOT, "evidence", self.evidence_name + ".json"), "w") as f:
             json.dump(ev, f, indent=1, sort_keys=True)
             f.write("\n")
         for l in lines:
@@ -497,3 +500,41 @@ def compare_model(check, exe, cases_path, stream, describe=None, max_report=5, n
         for i in range(0, len(lines), step):
             check.samples.append(dict(stream=stream, case=lines[i], verdict=outs[i]))
     return mism
+
+
+def merge_evidence(prop, parts, tier, seed, wall):
+    """Merge evidence/<part>.json files (written in this run by sub-checks) into evidence/<prop>.json."""
+    cov = dict(obligations=0, discharged=0, evaluations=0, distinct_nontrivial=0, samples=[], theorems=[],
+               trusted_base=[], checker_cmd=[], rule=[], parts={}, known_findings_hit=[], notes=[])
+    assumptions, violations = [], 0
+    for part in parts:
+        f = os.path.join(ROOT, "evidence", part + ".json")
+        if not os.path.exists(f):
+            cov["parts"][part] = "missing (sub-check did not finish)"
+            violations += 1
+            continue
+        e = json.load(open(f))
+        c = e["coverage"]
+        for k in ("obligations", "discharged", "evaluations", "distinct_nontrivial"):
+            cov[k] += int(c.get(k, 0))
+        cov["samples"] += [dict(part=part, sample=x) for x in c.get("samples", [])[:6]]
+        cov["theorems"] += c.get("theorems", [])
+        for t in c.get("trusted_base", []):
+            if t not in cov["trusted_base"]:
+                cov["trusted_base"].append(t)
+        cov["checker_cmd"].append(c.get("checker_cmd", ""))
+        cov["rule"].append("[%s] %s" % (part, c.get("rule", "")))
+        cov["known_findings_hit"] += c.get("known_findings_hit", [])
+        cov["notes"] += c.get("notes", [])
+        cov["parts"][part] = {k: v for k, v in c.items() if k not in ("samples", "theorems", "trusted_base")}
+        for a in e.get("assumptions", []):
+            if a not in assumptions:
+                assumptions.append(a)
+        violations += int(e.get("violations", 0))
+    cov["checker_cmd"] = "; ".join(x for x in cov["checker_cmd"] if x)
+    cov["rule"] = " ".join(cov["rule"])
+    ev = dict(property_id=prop, tier=tier, seed=seed, level="proof", coverage=cov, assumptions=assumptions,
+              wall_s=round(wall, 2), violations=violations)
+    with open(os.path.join(ROOT, "evidence", prop + ".json"), "w") as f:
+        json.dump(ev, f, indent=1, sort_keys=True)
+        f.write("\n")
